@@ -545,21 +545,34 @@ func verifC01NestedSet() {
 		weakd = append(weakd, mk(weak("u", u), NumberIntVal(w)))
 	}
 	probe := mk(NumberIntVal(q), NumberIntVal(r0))
-	op := vChoice("op", 2)
-	apply := func(members []Value) Value {
+	probeW := mk(NumberIntVal(q), weak("r", r0))
+	op := vChoice("op", 5)
+	apply := func(members []Value, weakened bool) Value {
 		s := SetVal(members)
-		if op == 0 {
+		switch op {
+		case 0:
 			return s.HasElement(probe)
+		case 1:
+			return s.Length()
+		case 2:
+			// equality with the wholly known set of the same members, either way round
+			return s.Equals(SetVal(conc))
+		case 3:
+			return SetVal(conc).NotEqual(s)
 		}
-		return s.Length()
+		// the set is wholly known, the element sought is partly unknown
+		if weakened {
+			return SetVal(conc).HasElement(probeW)
+		}
+		return SetVal(conc).HasElement(probe)
 	}
 	var r Value
-	if vExpectPanic(func() { r = apply(conc) }) {
+	if vExpectPanic(func() { r = apply(conc, false) }) {
 		vReach("concrete-fails")
 		return
 	}
 	var s Value
-	p := vExpectPanic(func() { s = apply(weakd) })
+	p := vExpectPanic(func() { s = apply(weakd, true) })
 	vAssert("weakened-does-not-fail", !p)
 	if p {
 		return
